@@ -1,6 +1,9 @@
 // prog <opts> <hex source> [<hex include-file-name> <hex include-file-content>]...
 //   In-process two-pass assembly exactly as main() of naken_asm does it (without writing a file).
-//   opts: '-' or letters: o = -optimize, 1 = also report symbols after pass 1
+//   opts: '-' or letters: o = -optimize, 1 = also report symbols after pass 1,
+//         L = also report lines=<source line>:<lowest address carrying that line's debug marker>:<count>,...
+//             (Memory::debug_line holds, for the opcode byte(s) an instruction statement wrote in pass 2,
+//             the number of the source line that wrote it: where the code of a statement really is)
 //   -> st=<0|1> err=<#Error lines> low=<hex> high=<hex> entry=<hex> bpa=<n> end=<l|b>
 //      img=<addr:hexbytes;...> dbg=<addr:kinds;...> syms=<name=addr@scope[!],...> [p1=<...>]
 //   img lists every byte whose debug marker is not DL_EMPTY, in address order, grouped in runs;
@@ -67,6 +70,33 @@ static std::string dump_image(Memory *memory, bool debug_kinds)
       }
       next = a + 1;
     }
+  }
+  return out.empty() ? "-" : out;
+}
+
+// for every source line that marked at least one byte of the image: the lowest marked address
+static std::string dump_lines(Memory *memory)
+{
+  std::map<int, std::pair<uint64_t, int>> m;
+  for (MemoryPage *p = memory->pages; p != nullptr; p = p->next)
+  {
+    for (uint32_t off = 0; off < PAGE_SIZE; off++)
+    {
+      int dl = p->debug_line[off];
+      if (dl < 0) { continue; }
+      uint64_t a = (uint64_t)p->address + off;
+      auto it = m.find(dl);
+      if (it == m.end()) { m[dl] = std::make_pair(a, 1); }
+      else { if (a < it->second.first) { it->second.first = a; } it->second.second++; }
+    }
+  }
+  std::string out;
+  char buf[64];
+  for (auto &kv : m)
+  {
+    if (!out.empty()) { out += ","; }
+    snprintf(buf, sizeof(buf), "%d:%llx:%d", kv.first, (unsigned long long)kv.second.first, kv.second.second);
+    out += buf;
   }
   return out.empty() ? "-" : out;
 }
@@ -138,6 +168,7 @@ static std::string cmd_prog(const std::vector<std::string> &args)
   out += " dbg=" + dump_image(&ctx->memory, true);
   out += " syms=" + dump_symbols(ctx);
   if (!p1.empty()) { out += " p1=" + p1; }
+  if (opts.find('L') != std::string::npos) { out += " lines=" + dump_lines(&ctx->memory); }
   if (ctx->tokens.in != NULL) { fclose(ctx->tokens.in); ctx->tokens.in = NULL; }
   delete ctx;
   for (auto &f : files) { unlink(f.c_str()); }
